@@ -123,6 +123,8 @@ pub const NPARSE: usize = 4;
 pub struct ParseScript {
     /// false: the text is not valid JSON / not an object -> Err
     pub ok: bool,
+    /// which serde_json error category the failure has: 0 not Eof, 1 Eof (truncated document)
+    pub err_kind: u8,
     pub obj: MapScript,
 }
 
@@ -130,6 +132,7 @@ impl ParseScript {
     pub const fn empty() -> ParseScript {
         ParseScript {
             ok: false,
+            err_kind: 0,
             obj: MapScript::empty(),
         }
     }
@@ -155,7 +158,10 @@ pub fn from_slice<'a, T: Deserialize<'a>>(_v: &'a [u8]) -> serde_json::Result<T>
     let sc = unsafe { PARSE[i] };
     if !sc.ok {
         unsafe { PARSE_FAILED = true };
-        return Err(nde::json_err());
+        return Err(match sc.err_kind {
+            1 => nde::json_eof_err(),
+            _ => nde::json_err(),
+        });
     }
     match T::deserialize(ObjDe(sc.obj)) {
         Ok(t) => Ok(t),
